@@ -526,6 +526,8 @@ def main():
         n += 1
     # abstraction check: every observed step of the joint (session, communication) state is a path of the abstract pair model
     drv = hlib.Driver()
+    import c20_gem
+    c20_gem.run(res, rng, drv, a.tier)
     if drv.available and drv_lines:
         try:
             outs = drv.run([l for _, l in drv_lines])
